@@ -20,8 +20,11 @@ def check_scores(ctx, ver, strings, label, slots=("base", "temporal", "environme
     """model-vs-code on scores(); spec-vs-code (the property's own oracle) on the real code"""
     items = [(ver, s) for s in strings]
     ctx.count(len(items))
-    for s in strings:
-        ctx.nontrivial(eff_key(ver, s))
+    if label.endswith("quotient"):
+        ctx.distinct_bulk += len(strings)   # one string per class, distinct by construction
+    else:
+        for s in strings:
+            ctx.nontrivial(eff_key(ver, s))
     if strings:
         ctx.sample({"op": "CVSS%s(s).scores()" % ver, "s": strings[0]})
     impl_out = []
